@@ -205,6 +205,38 @@ void harness::run_case(const eng::Raw& raw, eng::Ctx& ctx)
 				ctx.fail("union-prefilled:lost-tree", "Union with a colliding pre-filled map lost " + ref::show(r.witness));
 		}
 	}
+	// --- Union with BOTH maps pre-filled: several entries per side, targets interleaved in a range above everything the
+	// routine can allocate itself (it numbers fresh states from 0, there are at most |Q_A|+|Q_B| of them).  The caller's
+	// entries must be honoured and no two operand states may end up in one result state.
+	if (flavour % 4 == 2 && !VA.states().empty() && !VB.states().empty()) {
+		StateMap ml, mr, ml0, mr0;
+		const std::set<int> sa = VA.states(), sb = VB.states();
+		const size_t base = sa.size() + sb.size() + 1 + c.header[6] % 3;
+		size_t il = 0, ir = 0;
+		for (int q : sa) if (gen::mix(c.header[6], static_cast<uint64_t>(q) + 5) % 2) ml[static_cast<size_t>(q)] = base + 2 * (il++) + 1 + 2 * (c.header[5] % 2);
+		for (int q : sb) if (gen::mix(c.header[6], static_cast<uint64_t>(q) + 77) % 2) mr[static_cast<size_t>(q)] = base + 2 * (ir++);
+		ml0 = ml; mr0 = mr;
+		ExplicitTreeAut u;
+		{ eng::LibSection ls(ctx, "Union(both-prefilled)"); u = ExplicitTreeAut::Union(a, b, &ml, &mr); }
+		const ref::TA U = lib::read(u);
+		ctx.count("union_both_maps_prefilled");
+		bool kept = true;
+		for (auto& kv : ml0) if (!ml.count(kv.first) || ml[kv.first] != kv.second) kept = false;
+		for (auto& kv : mr0) if (!mr.count(kv.first) || mr[kv.first] != kv.second) kept = false;
+		if (!kept) ctx.fail("union-both-prefilled:entry-changed", "an entry the caller had put into a translation map was changed or removed");
+		std::map<size_t, std::string> owner;
+		std::string clash;
+		for (auto& kv : ml) { auto ins = owner.insert({kv.second, "A:" + std::to_string(kv.first)}); if (!ins.second) clash = ins.first->second + " and A:" + std::to_string(kv.first); }
+		for (auto& kv : mr) { auto ins = owner.insert({kv.second, "B:" + std::to_string(kv.first)}); if (!ins.second) clash = ins.first->second + " and B:" + std::to_string(kv.first); }
+		if (!clash.empty())
+			ctx.fail("union-both-prefilled:states-merged", "operand states " + clash + " are mapped to the same result state although the caller's numbers (>= " +
+				std::to_string(base) + ") are out of reach of the routine's own numbering");
+		else {
+			tc::expect_equiv(ctx, "union-both-prefilled", U, wantUnion, "Union with both maps pre-filled");
+			check_union_map(ctx, "union-both-prefilled", U, VA, ml, "left");
+			check_union_map(ctx, "union-both-prefilled", U, VB, mr, "right");
+		}
+	}
 	// --- UnionDisjointStates (operands with disjoint state numbers)
 	{
 		gen::Numbering nb2 = gen::make_numbering(c.header[5], c.nB, false,
